@@ -2,6 +2,7 @@ CONF = {
     "level": "exploration",
     "technique": "metamorphic property testing (rapid): the same program rendered plainly and with comments/blank lines/line breaks between arbitrary tokens; equality of canonical tree, lint diagnostics (multiset, locations excluded) and simulator behaviour",
     "level_text": "Metamorphic relation over generated programs and generated decorations: nothing observable may change except diagnostic locations. Three program sources (core programs, the same with injected lint errors inside vcl_recv, nine-subroutine lifecycle VCLs). Exploration only.",
+    "cli": True,
     "campaigns": [rapid("rapid", 16000, 300000, bq=75)],
     "assumptions": [
         "the #FASTLY recv macro line is kept verbatim in both renderings (it is not an ordinary comment)",
